@@ -66,7 +66,9 @@ func (h *Handler) HandleMessage(msg stanza.Message, r xmlstream.TokenReadEncoder
 	if err != nil {
 		return err
 	}
-	start := tok.(xml.StartElement)
+	// If the first child is not an element this is not a query result; it ends
+	// up with an empty (untracked) query ID and is passed on below.
+	start, _ := tok.(xml.StartElement)
 	var queryID string
 	for _, attr := range start.Attr {
 		if attr.Name.Local == "queryid" {
